@@ -19,7 +19,16 @@ type Rand struct{ s uint64 }
 
 func NewRand(salt uint64) *Rand {
 	seed, _ := strconv.ParseUint(os.Getenv("VERIF_SEED"), 10, 64)
-	return &Rand{s: seed*0x9E3779B97F4A7C15 + salt + 1}
+	shard, _ := strconv.ParseUint(os.Getenv("VERIF_SHARD"), 10, 64)
+	// Scramble seed, salt and shard separately so that neighbouring seeds give unrelated
+	// streams (the state advances by a fixed increment, so a linear start would only shift it).
+	return &Rand{s: mix(seed+0x1234567) ^ mix(salt*0xD6E8FEB86659FD93+1) ^ mix(shard*0xA0761D6478BD642F+7)}
+}
+
+func mix(z uint64) uint64 {
+	z = (z ^ (z >> 30)) * 0xBF58476D1CE4E5B9
+	z = (z ^ (z >> 27)) * 0x94D049BB133111EB
+	return z ^ (z >> 31)
 }
 
 func (r *Rand) U64() uint64 {
